@@ -75,3 +75,15 @@ def modulus_lemma(repo, tier):
     res = _result("lemma:modulus-step", ("C01", "C05"), [ob])
     res["mode"] = "prove"
     return [res]
+
+
+def lru_methods(repo, tier):
+    """lru_cache as method / classmethod / staticmethod against functools.lru_cache: bounded native stand-in on the real code"""
+    r = _native("bounded.py", repo, "refs", tier)
+    if "error" in r:
+        return [dict(_result("bounded:lru-methods", ("C10",), []), crash=r["error"])]
+    v = r.get("lru_method_violations", [])
+    ob = {"name": "bounded/lru-methods-vs-functools", "kind": "bounded", "status": "discharged" if not v else "failed", "count": 0,
+          "detail": "random histories of method/classmethod/staticmethod calls on two instances, cache_info, cache_clear; " + ("; ".join(v[:2]) if v else "no difference"),
+          "model": None, "trace": None, "native": {"violation": v[0]} if v else None}
+    return [_result("bounded:lru-methods", ("C10",), [ob])]
